@@ -75,3 +75,25 @@ Theorem C11_path_equations : forall (S : StarSR) (m : wfsa S),
                           (bsum st (fun j => smul (epsf m q j) (v j (a :: xs))))).
 Proof. intros S m Hd. exact (EpsEquations.call_path_equations S m Hd). Qed.
 Print Assumptions C11_path_equations.
+
+(* Total weight.  The library computes the total weight of an automaton as sum_i start[i] * b[i] with b the backward
+   vector, a solution of b = F + A b (A = arc-weight matrix, F = final weights; the block solvers are proved to
+   return a solution in C15).  For an epsilon-free automaton whose arc graph is acyclic (every product of N
+   consecutive arc weights vanishes) that system has exactly one solution -- the sums over accepting paths by
+   number of arcs -- and the total equals the sum of the weights of ALL strings, every accepting path once
+   (any commutative semiring; proofs/TotalWeightProofs.v). *)
+From GV.proofs Require ProductProofs TotalWeightProofs.
+Theorem C11_total_weight : forall (S : SR) (V Q : list nat) (m : wfsa S) (N : nat) (b : nat -> S),
+  NoDup V -> NoDup Q ->
+  (forall ar, In ar (warcs m) -> exists a, albl ar = Some a /\ In a V) ->
+  (forall ar, In ar (warcs m) -> In (adst ar) Q) -> (forall e, In e (winit m) -> In (fst e) Q) ->
+  TotalWeightProofs.nilpotent m Q (Datatypes.S N) ->
+  (forall q, In q Q -> b q = sadd (wget (wfinal m) q) (bsum Q (fun j => smul (TotalWeightProofs.arcw m q j) (b j)))) ->
+  bsum (winit m) (fun e => smul (snd e) (b (fst e))) = bsum (ProductProofs.words_le V N) (fun xs => pathsum m xs) /\
+  (forall q, In q Q -> b q = bsum (seq 0 (Datatypes.S N)) (fun n => TotalWeightProofs.paths_n m Q n q)).
+Proof.
+  intros S V Q m N b HV HQ Hl Hd Hi Hn Hb. split.
+  - exact (TotalWeightProofs.total_weight_is_string_sum_le S V Q m N b HV HQ Hl Hd Hi Hn Hb).
+  - intros q Hq. exact (TotalWeightProofs.backward_is_path_sum S Q m (Datatypes.S N) b Hn Hb q Hq).
+Qed.
+Print Assumptions C11_total_weight.
